@@ -37,6 +37,8 @@ func c17BuildCRLFile(ca *CA, n int, pemEnc bool, path string) (listed, unlisted 
 	return new(big.Int).Add(base, big.NewInt(int64(n))), new(big.Int).Add(base, big.NewInt(int64(n+5)))
 }
 
+const c17Ceiling = 192 << 20
+
 type c17Result struct {
 	N        int
 	PeakLive uint64
@@ -83,6 +85,14 @@ func c17Measure(r *Run, ca *CA, n int, pemEnc, viaHTTP bool) (c17Result, error) 
 			runtime.ReadMemStats(&m)
 			if m.HeapAlloc > atomic.LoadUint64(&peak) {
 				atomic.StoreUint64(&peak, m.HeapAlloc)
+			}
+			// far beyond anything a bounded reader needs (the unchanged code peaks below 32 MiB at 10^6 entries): the
+			// verdict is established, do not spend an hour in a thrashing collector
+			if m.HeapAlloc > res.Baseline+c17Ceiling {
+				r.Violate("C17 memory-grows-with-entries "+fmt.Sprintf("pem=%v http=%v", pemEnc, viaHTTP),
+					fmt.Sprintf("live heap reached %d MiB while processing a CRL with %d entries (baseline %d MiB, ceiling %d MiB); run aborted",
+						m.HeapAlloc>>20, n, res.Baseline>>20, c17Ceiling>>20), map[string]interface{}{"N": n, "live": m.HeapAlloc})
+				r.Abort()
 			}
 			time.Sleep(15 * time.Millisecond)
 		}
